@@ -3,7 +3,7 @@ from __future__ import annotations
 
 import ast
 
-from ..cfg import CFG
+from ..cfg import CFG, explore_defs, witness
 from ..engine import AnalysisError, PropertySpec, norm
 from ..pyutil import call_name, calls, is_name, walk_local
 from .c01 import covers, handler_classes
@@ -23,6 +23,12 @@ SPEC = PropertySpec(
 )
 
 WORKERS = {"translate", "flatten_class", "casadi_api.transfer_model", "transfer_model"}
+
+
+def _none_test(test, var):
+    from .c01 import _is_none_test
+
+    return _is_none_test(test, var)
 
 
 def _is_inc(node) -> bool:
@@ -68,13 +74,25 @@ def r26_1(ctx, rep):
         counted_before = before is None
         after_ok = True
         w = None
+        # feasibility w.r.t. flags that are set to None / a value and then tested (`model_dir = None ... if not model_dir`)
+        flags = sorted({t.id for st in ast.walk(fn) if isinstance(st, ast.Assign) and isinstance(st.value, ast.Constant) and st.value.value is None
+                        for t in st.targets if isinstance(t, ast.Name)})
         for e in ends:
-            if e in cfg.reachable(lg.id, avoid=incs):
-                # reachable without passing an increment
-                pth = cfg.path(lg.id, e, avoid=incs)
-                if pth is not None and (len(pth) > 1):
-                    after_ok = False
-                    w = pth
+            reach_all = True
+            wit = None
+            if e not in cfg.reachable(lg.id, avoid=incs) or e == lg.id:
+                continue
+            for v in flags:
+                pol = lambda t, _v=v: _none_test(t, _v)  # noqa: E731
+                full, _ = explore_defs(cfg, v, pol)
+                reach, prev = explore_defs(cfg, v, pol, src=lg.id, src_defs=full.get(lg.id, {cfg.entry}), avoid=incs)
+                if not reach.get(e):
+                    reach_all = False
+                    break
+                wit = witness(cfg, prev, e)
+            if reach_all:
+                after_ok = False
+                w = wit or cfg.path(lg.id, e, avoid=incs)
         msg = ""
         for c in calls(lg.ast):
             if call_name(c) in ("log.error", "log.exception") and c.args:
